@@ -373,6 +373,9 @@ def run(prog, rep, tier, snap):
     r12_3(prog, rep, files)
     rep.rule("R12.4", "no-run flag agrees with the executor's options and bypasses the spawn", 5)
     r12_4(prog, rep, snap)
+    from ..rules import watch
+    rep.rule("R12.5", "child watchers whose callback means 'terminated' are registered for termination only", 1)
+    watch.child_watchers(prog, rep, "R12.5", "echsd.c")
     from ..rules import encodings
     rep.rule("R05.4", "MAX-SIMUL sentinel encoding round-trips over the whole field domain (shared with C05)", 1)
     encodings.r05_4(prog, rep, which=("max_simul",))
